@@ -46,6 +46,8 @@ import traceback
 CPU_LIMIT = int(os.environ.get("VERIF_C13_CFG_CPU", "3"))      # seconds of CPU time per load (a normal load needs < 1 s)
 WALL_LIMIT = float(os.environ.get("VERIF_C13_CFG_WALL", "90"))  # seconds of wall clock (sleeping hang / overloaded machine)
 
+FUEL = 2000  # driver fuel for ImportLoop.fromPath; the bound of config_load_terminates (files + paths + 4) must stay below
+
 STD = ["core", "llm", "timing", "avatars", "guardrails", "passthrough"]
 STD_W = ["core", "core", "core", "llm", "timing", "timing", "avatars", "guardrails", "passthrough"]
 
@@ -113,8 +115,11 @@ def gen_cfg_v2(rng):
         if rng.random() < 0.2:
             flows.append(_flow_v2(rng, shared_name))
         lib.append([m + ".co", _render_v2(rng, imps, flows, late=pick_imports(1, False) if rng.random() < 0.15 else None)])
+    if "mods" in local and rng.random() < 0.5:
+        # a module FILE next to the package directory of the same name: the directory wins (it is looked up first)
+        lib.append(["mods.co", _render_v2(rng, [], [_flow_v2(rng, fresh("modsfile "))])])
     if has_pkg:
-        for fn in rng.sample(["pkg/one.co", "pkg/two.co", "pkg/inner/three.co"], rng.randrange(1, 4)):
+        for fn in rng.sample(["pkg/one.co", "pkg/two.co", "pkg/inner/three.co", "pkg/main.co", "pkg/inner/one.co"], rng.randrange(1, 5)):
             lib.append([fn, _render_v2(rng, pick_imports(rng.choice([0, 1, 2]), False), [_flow_v2(rng, fresh("pkg "))])])
         if rng.random() < 0.4:
             ents = [rng.choice(pool) for _ in range(rng.randrange(1, 4))]
@@ -124,7 +129,7 @@ def gen_cfg_v2(rng):
     # ---- the configuration directory
     files = []
     n_files = rng.choice([1, 1, 2, 2, 3])
-    names = ["main.co"] + rng.sample(["rails.co", "flows/extra.co", "a.co", "zz/last.co"], n_files - 1)
+    names = ["main.co"] + rng.sample(["rails.co", "flows/extra.co", "a.co", "zz/last.co", "flows/main.co", "one.co"], n_files - 1)
     bad_file = rng.random() < 0.12
     for i, fn in enumerate(names):
         imps = pick_imports(rng.choice([0, 1, 1, 2, 2, 3, 4]), missing_ok=rng.random() < 0.12)
@@ -333,6 +338,9 @@ def _load_in_child(cfg, libd, mode, api, canon_ast, root):
     from nemoguardrails.colang.v2_x.runtime.errors import ColangParsingError
     import nemoguardrails.rails.llm.config as cfgmod
 
+    # (the same child loads several trees one after the other: the adapter's own patches are undone in `finally`; whatever the
+    # LOADER leaves behind in the process stays - that is what the second load is there to see)
+    old_cwd = os.getcwd()
     if mode == "cwd":
         os.chdir(libd)
     else:
@@ -375,26 +383,35 @@ def _load_in_child(cfg, libd, mode, api, canon_ast, root):
         inner = e.__cause__ or e.__context__
         if inner is not None:
             o["inner"] = type(inner).__name__
+    finally:
+        cfgmod.parse_colang_file = orig
+        if mode == "cwd":
+            os.chdir(old_cwd)
+        elif libd in cfgmod.colang_path_dirs:
+            cfgmod.colang_path_dirs.remove(libd)
     o["parsed"] = order
     return o
 
 
-def in_child_cpu(fn, cpu, wall):
-    """fn() -> JSON-able in a forked child that may use `cpu` seconds of CPU time and `wall` seconds of wall clock"""
+def in_child_cpu(fns, cpu, wall):
+    """every fn() of `fns` -> JSON-able, one after the other in ONE forked child that may use `cpu` seconds of CPU time and
+    `wall` seconds of wall clock; -> list of results (a stage that did not end = timeout, later stages are missing)"""
     r, w = os.pipe()
     pid = os.fork()
     if pid == 0:
         try:
             os.close(r)
-            try:
-                resource.setrlimit(resource.RLIMIT_CPU, (cpu, cpu + 1))
-                resource.setrlimit(resource.RLIMIT_AS, (4 << 30, 4 << 30))
-                res = fn()
-            except BaseException as e:  # noqa
-                res = {"outcome": "adapter", "cls": type(e).__name__, "msg": str(e)[:200]}
-            data = json.dumps(res, ensure_ascii=False, default=str).encode("utf-8", "surrogatepass")
+            resource.setrlimit(resource.RLIMIT_CPU, (cpu, cpu + 1))
+            resource.setrlimit(resource.RLIMIT_AS, (4 << 30, 4 << 30))
             with os.fdopen(w, "wb") as f:
-                f.write(data)
+                for fn in fns:
+                    try:
+                        res = fn()
+                    except BaseException as e:  # noqa
+                        res = {"outcome": "adapter", "cls": type(e).__name__, "msg": str(e)[:200]}
+                    res["cpu_used"] = round(sum(os.times()[:2]), 2)
+                    f.write(json.dumps(res, ensure_ascii=True, default=str).encode("ascii") + b"\n")
+                    f.flush()
         finally:
             os._exit(0)
     os.close(w)
@@ -422,32 +439,59 @@ def in_child_cpu(fn, cpu, wall):
             pass
     _, status, ru = os.wait4(pid, 0)
     used = round(ru.ru_utime + ru.ru_stime, 2)
-    if timed_out:
-        return {"outcome": "timeout", "limit": f"{wall:g} s of wall clock", "cpu_used": used}
-    if os.WIFSIGNALED(status):
-        sig = os.WTERMSIG(status)
-        if sig in (signal.SIGXCPU, signal.SIGKILL):
-            return {"outcome": "timeout", "limit": f"{cpu} s of CPU time", "cpu_used": used}
-        return {"outcome": "adapter", "cls": "ChildDied", "msg": f"signal {sig}"}
-    try:
-        res = json.loads(buf.decode("utf-8", "surrogatepass"))
-        res["cpu_used"] = used
-        return res
-    except Exception:  # noqa
-        return {"outcome": "adapter", "cls": "ChildDied", "msg": buf[-200:].decode("utf-8", "replace")}
+    out = []
+    for line in buf.split(b"\n"):
+        if line.strip():
+            try:
+                out.append(json.loads(line.decode("ascii")))
+            except Exception:  # noqa
+                out.append({"outcome": "adapter", "cls": "ChildDied", "msg": line[-200:].decode("ascii", "replace")})
+    if len(out) < len(fns):
+        if timed_out:
+            out.append({"outcome": "timeout", "limit": f"{wall:g} s of wall clock", "cpu_used": used})
+        elif os.WIFSIGNALED(status) and os.WTERMSIG(status) in (signal.SIGXCPU, signal.SIGKILL):
+            out.append({"outcome": "timeout", "limit": f"{cpu} s of CPU time", "cpu_used": used})
+        else:
+            out.append({"outcome": "adapter", "cls": "ChildDied", "msg": f"status {status}"})
+    return out
 
 
-def load_tree(files, lib, yml, version, mode, api, canon_ast):
+def _summary(o):
+    return {k: o.get(k) for k in ("outcome", "cls", "flows", "msgs", "import_paths", "imported", "limit", "msg", "site", "is_cpe") if k in o}
+
+
+def load_trees(case, vtree, canon_ast):
+    """base tree (and the variant tree) on disk; child A loads base, then the variant, then base AGAIN in one process (what a
+    long-running server does); child B loads the variant in a fresh process"""
+    version, mode, api = case["version"], case["mode"], case.get("api", "path")
     root = tempfile.mkdtemp(prefix="c13cfg-")
+    obs = {}
     try:
-        cfg, libd = _write_tree(root, files, lib, yml, version)
-        o = in_child_cpu(lambda: _load_in_child(cfg, libd, mode, api, canon_ast, root), CPU_LIMIT, WALL_LIMIT)
+        os.makedirs(os.path.join(root, "b"))
+        cfg, libd = _write_tree(os.path.join(root, "b"), case["files"], case["lib"], case.get("yml_imports"), version)
+        stages = [lambda: _load_in_child(cfg, libd, mode, api, canon_ast, os.path.join(root, "b"))]
+        if vtree is not None:
+            os.makedirs(os.path.join(root, "v"))
+            vcfg, vlibd = _write_tree(os.path.join(root, "v"), vtree[0], vtree[1], vtree[2], version)
+            stages.append(lambda: _summary(_load_in_child(vcfg, vlibd, mode, api, canon_ast, os.path.join(root, "v"))))
+        stages.append(lambda: _summary(_load_in_child(cfg, libd, mode, api, canon_ast, os.path.join(root, "b"))))
+        res = in_child_cpu(stages, CPU_LIMIT, WALL_LIMIT)
+        obs["base"] = res[0]
+        names = (["variant_after_base"] if vtree is not None else []) + ["base_again"]
+        obs["seq"] = {n: r for n, r in zip(names, res[1:])}
         if api == "path":
             try:
-                o["world"] = world_of(cfg, libd, mode, version, root)
+                obs["base"]["world"] = world_of(cfg, libd, mode, version, os.path.join(root, "b"), canon_ast)
             except Exception as e:  # noqa
-                o["world_error"] = f"{type(e).__name__}: {e}"[:200]
-        return o
+                obs["base"]["world_error"] = f"{type(e).__name__}: {e}"[:200]
+        if vtree is not None and obs["base"]["outcome"] != "timeout":
+            obs["variant"] = in_child_cpu([lambda: _load_in_child(vcfg, vlibd, mode, api, canon_ast, os.path.join(root, "v"))], CPU_LIMIT, WALL_LIMIT)[0]
+            if api == "path":
+                try:
+                    obs["variant"]["world"] = world_of(vcfg, vlibd, mode, version, os.path.join(root, "v"), canon_ast)
+                except Exception as e:  # noqa
+                    obs["variant"]["world_error"] = f"{type(e).__name__}: {e}"[:200]
+        return obs
     finally:
         shutil.rmtree(root, ignore_errors=True)
 
@@ -456,28 +500,47 @@ def load_tree(files, lib, yml, version, mode, api, canon_ast):
 
 _PARSE_CACHE = {}
 
+TEXT_IMPORT = re.compile(r"^import[ \t]+([A-Za-z_]\w*(?:\.[A-Za-z_]\w*)*)[ \t]*(?:#.*)?\r?$", re.M)
+STRING_IMPORT = re.compile(r"^import[ \t]+[\"']", re.M)
 
-def _imports_of(path, version, cacheable):
-    """import paths the real parser reports for a .co file, None when it does not parse (the parser is outside ImportLoop)"""
+
+def text_imports(content, version):
+    """the import paths of a Colang 2.x file read off its TEXT (independent of the parser): `import a.b.c` at the start of a
+    line -> `a/b/c`; None when the file uses the string form (what that should resolve to is not specified)"""
+    if version != "2.x":
+        return []
+    if STRING_IMPORT.search(content):
+        return None
+    return [m.group(1).replace(".", "/") for m in TEXT_IMPORT.finditer(content)]
+
+
+def _file_facts(path, version, cacheable, canon_ast):
+    """what the real PARSER says about one .co file on its own: its import paths and its flows (None: it does not parse);
+    plus the imports read off the text"""
     from nemoguardrails.colang import parse_colang_file
 
     key = (path, version)
     if cacheable and key in _PARSE_CACHE:
         return _PARSE_CACHE[key]
+    with open(path, encoding="utf-8", newline="") as f:
+        content = f.read()
     try:
-        with open(path, encoding="utf-8") as f:
-            content = f.read()
         with contextlib.redirect_stdout(io.StringIO()), contextlib.redirect_stderr(io.StringIO()):
-            r = parse_colang_file(os.path.basename(path), content=content, version=version)
-        res = list(r.get("import_paths", []) or [])
+            r = parse_colang_file("standalone-%d.co" % len(_PARSE_CACHE), content=content, version=version)
+        imps = list(r.get("import_paths", []) or [])
+        flows = []
+        for fl in r.get("flows", []) or []:
+            d = canon_ast(fl)
+            flows.append([d.get("name") or d.get("id"), _digest(d) if version == "2.x" else None])
     except Exception:  # noqa
-        res = None
+        imps, flows = None, None
+    res = (imps, flows, text_imports(content, version))
     if cacheable:
         _PARSE_CACHE[key] = res
     return res
 
 
-def world_of(cfg, libd, mode, version, root):
+def world_of(cfg, libd, mode, version, root, canon_ast):
     """What `ImportLoop.fromPath` needs to know about the file tree, gathered WITHOUT the loader's loops: the directory walk
     (same `os.walk` on the same directory = same order), the `import_paths` of every .yml, the imports of every .co file, and
     the resolution rule (the path itself relative to the working directory, else under a COLANGPATH root, else that + ".co")."""
@@ -487,14 +550,17 @@ def world_of(cfg, libd, mode, version, root):
     roots = ([libd] if mode != "cwd" else []) + list(cfgmod.colang_path_dirs)
     cwd = libd if mode == "cwd" else os.getcwd()
     files = []  # id -> [name the loader passes to the parser / puts into the error message, real path]
-    fimports = []
+    fimports, fflows, ftext = [], [], []
 
     def short(p):
         return str(p).replace(root + os.sep, "")
 
     def new_file(name, real):
         files.append([short(name), short(real)])
-        fimports.append(_imports_of(real, version, not real.startswith(root)))
+        a, b, c = _file_facts(real, version, not real.startswith(root), canon_ast)
+        fimports.append(a)
+        fflows.append(b)
+        ftext.append(c)
         return len(files) - 1
 
     def walk(path, real):
@@ -533,7 +599,8 @@ def world_of(cfg, libd, mode, version, root):
 
     def push(items):
         for it in items:
-            todo.extend(it[1] if it[0] == "y" else (fimports[it[1]] or []))
+            # (closed under what the parser reports AND what the text says, so that the oracle's own closure stays inside)
+            todo.extend(it[1] if it[0] == "y" else (fimports[it[1]] or []) + (ftext[it[1]] or []))
 
     push(init)
     while todo:
@@ -547,7 +614,7 @@ def world_of(cfg, libd, mode, version, root):
         items = walk(actual, real)
         paths[p] = [short(actual), items]
         push(items)
-    return {"init": init, "paths": [[k, v[0], v[1]] for k, v in paths.items()], "files": files, "fimports": fimports}
+    return {"init": init, "paths": [[k, v[0], v[1]] for k, v in paths.items()], "files": files, "fimports": fimports, "fflows": fflows, "ftext": ftext}
 
 
 def model_requests_cfg(case, obs):
@@ -556,7 +623,7 @@ def model_requests_cfg(case, obs):
         o = obs.get(w)
         if o and "world" in o:
             wd = o["world"]
-            reqs.append({"m": "C13.imports", "paths": wd["paths"], "files": [[i, x] for i, x in enumerate(wd["fimports"])], "init": wd["init"], "fuel": 400})
+            reqs.append({"m": "C13.imports", "paths": wd["paths"], "files": [[i, x] for i, x in enumerate(wd["fimports"])], "init": wd["init"], "fuel": FUEL})
     return reqs
 
 
@@ -578,8 +645,12 @@ def _compare_one(o, m, what):
     wd = o["world"]
     out = o["outcome"]
     pre = f"import loops ({what} tree): "
+    if m.get("closed") is not True:
+        return pre + "the world read off the file tree does not satisfy the hypotheses of config_load_terminates_checked (closedWorld = false)"
+    if m.get("bound", 10 ** 9) > FUEL:
+        return pre + f"fuel bound of config_load_terminates ({m.get('bound')}) exceeds the fuel the driver was given ({FUEL})"
     if m.get("fuel"):
-        return pre + "the ImportLoop model did not end within its fuel (config_load_terminates says it must)"
+        return pre + "the ImportLoop model did not end within its fuel although the hypotheses of config_load_terminates hold"
     if out == "timeout":
         return pre + f"the model (config_load_terminates) says the loops end with {json.dumps(m)[:160]}, the real loader did not finish within {o['limit']}"
     if out == "adapter":
@@ -615,15 +686,12 @@ def _compare_one(o, m, what):
 
 
 def run_cfg(case, canon_ast):
-    version = case["version"]
-    api = case.get("api", "path")
-    obs = {"version": version, "base": load_tree(case["files"], case["lib"], case.get("yml_imports"), version, case["mode"], api, canon_ast)}
     v = case.get("variant")
-    if v and obs["base"]["outcome"] != "timeout":
-        t = apply_variant(case, v)
-        if t is not None:
-            obs["variant"] = load_tree(t[0], t[1], t[2], version, case["mode"], api, canon_ast)
-            obs["vtree"] = {"files": t[0], "lib": t[1], "yml_imports": t[2]}
+    t = apply_variant(case, v) if v else None
+    obs = load_trees(case, t, canon_ast)
+    obs["version"] = case["version"]
+    if t is not None:
+        obs["vtree"] = {"files": t[0], "lib": t[1], "yml_imports": t[2]}
     return obs
 
 
@@ -655,11 +723,92 @@ def _one(o, what, paths, api="path"):
     return f"loader raised {o['cls']} (in {o['site']}) instead of ColangParsingError ({what}): {o['msg'][:160]}"
 
 
+def expected_flows(wd, version):
+    """The flows the configuration must load to, from the file tree alone: the .co files of the directory and of every import
+    path reachable through config.yml entries and the import lines of the TEXTS (resolution by the documented rule, each
+    import path once), each file parsed on its own.  None when that is not determined (an unresolvable or string-form import,
+    a file that does not parse: the load has to fail then)."""
+    paths = {p[0]: p for p in wd["paths"]}
+    files, seen, queue = [], set(), []
+
+    def take(items):
+        for it in items:
+            if it[0] == "y":
+                queue.extend(it[1])
+            else:
+                files.append(it[1])
+                if wd["ftext"][it[1]] is None:
+                    return False
+                queue.extend(wd["ftext"][it[1]])
+        return True
+
+    if not take(wd["init"]):
+        return None
+    while queue:
+        p = queue.pop(0)
+        if p in seen:
+            continue
+        seen.add(p)
+        e = paths.get(p)
+        if e is None or e[1] is None:
+            return None
+        if not take(e[2]):
+            return None
+    out = []
+    for f in files:
+        if wd["fflows"][f] is None:
+            return None
+        out.extend(wd["fflows"][f])
+    return sorted(map(tuple, [[n, d if version == "2.x" else None] for n, d in out]), key=repr)
+
+
+def _composition(o, version, what):
+    if o.get("outcome") != "ok" or "world" not in o:
+        return None
+    exp = expected_flows(o["world"], version)
+    if exp is None:
+        return None
+    got = sorted(map(tuple, [[n, d if version == "2.x" else None] for n, _, d in o["flows"]]), key=repr)
+    if got != exp:
+        missing = [x for x in exp if x not in got]
+        extra = [x for x in got if x not in exp]
+        return (f"the loaded configuration ({what}) does not consist of the flows of its files (each .co file of the directory and of "
+                f"every imported path, parsed on its own): {len(got)} flows loaded, {len(exp)} expected; missing {missing[:3]}, unexpected {extra[:3]}")
+    return None
+
+
+def _same_load(a, b):
+    keys = ("outcome", "cls", "flows", "msgs", "import_paths", "imported")
+    for k in keys:
+        if a.get(k) != b.get(k):
+            return k
+    return None
+
+
 def oracle_cfg(case, obs):
     b = obs["base"]
     d = _one(b, "as written", _co_paths(case), case.get("api", "path"))
     if d:
         return d
+    d = _composition(b, obs["version"], "as written") or _composition(obs.get("variant") or {}, obs["version"], "variant tree")
+    if d:
+        return d
+    # the same directory loaded again in the same process, and the variant loaded after the base in the same process
+    seq = obs.get("seq") or {}
+    if "base_again" in seq:
+        a = seq["base_again"]
+        if a.get("outcome") == "timeout":
+            return f"loading the same configuration a second time in the same process did not finish within {a['limit']}: a hang"
+        k = _same_load(b, a)
+        if k and not (seq.get("variant_after_base") or {}).get("outcome") == "timeout":
+            return f"loading the same configuration directory a second time in the same process gives another result ({k}: {str(b.get(k))[:120]} vs {str(a.get(k))[:120]})"
+    if "variant_after_base" in seq and obs.get("variant"):
+        a = seq["variant_after_base"]
+        if a.get("outcome") == "timeout" and obs["variant"].get("outcome") != "timeout":
+            return f"loading a second configuration in the same process did not finish within {a['limit']}: a hang"
+        k = _same_load(obs["variant"], a)
+        if k and obs["variant"].get("outcome") != "timeout":
+            return f"a configuration loads differently after another one was loaded in the same process ({k}: fresh {str(obs['variant'].get(k))[:120]} vs {str(a.get(k))[:120]})"
     v = obs.get("variant")
     if v is None:
         return None
@@ -737,12 +886,51 @@ def describe_variant(v):
 
 
 def signature_cfg(case, obs, msg):
-    for o in (obs.get("base"), obs.get("variant")):
+    """`unresolved-import-valueerror` (open finding) only when the import REALLY cannot be resolved: the path named in the
+    message belongs to an import statement / config.yml entry of the tree (read off the texts) and the documented resolution
+    rule finds nothing; a loader that fails to resolve a resolvable import is a new violation"""
+    for w in ("base", "variant"):
+        o = obs.get(w)
         if o and o.get("outcome") == "raised" and not o.get("is_cpe"):
             if o.get("site") == "_load_imported_paths" and o.get("cls") == "ValueError" and "could not be resolved" in o.get("msg", ""):
-                return "unresolved-import-valueerror"
+                m = re.search(r"Import path `(.*)` could not be resolved", o.get("msg", ""))
+                tree = obs.get("vtree") if w == "variant" and obs.get("vtree") else case
+                if m and _really_unresolvable(m.group(1), tree, o.get("world")):
+                    return "unresolved-import-valueerror"
             return None
     return None
+
+
+def resolves_by_rule(p):
+    """the documented resolution rule, for a load without a local library: the path itself, else under a COLANGPATH root
+    (the standard library is one), else that + ".co"""
+    import nemoguardrails.rails.llm.config as cfgmod
+
+    if os.path.exists(p):
+        return True
+    for r in cfgmod.colang_path_dirs:
+        if os.path.exists(os.path.join(r, p)) or (not p.endswith(".co") and os.path.exists(os.path.join(r, p + ".co"))):
+            return True
+    return False
+
+
+def _really_unresolvable(p, tree, wd):
+    if wd is None:
+        return True  # from_content: no world
+    e = {x[0]: x for x in wd["paths"]}.get(p)
+    if e is not None and e[1] is not None:
+        return False  # the documented rule resolves it
+    written = set(tree.get("yml_imports") or [])
+    for f in tree["files"] + tree["lib"]:
+        if f[0].endswith(".co"):
+            written.update(m.group(1).replace(".", "/") for m in TEXT_IMPORT.finditer(f[1]))
+            written.update(m.group(1) for m in re.finditer(r"^import[ \t]+(\"[^\n]*\"|'[^\n]*')", f[1], re.M))
+        elif f[0].endswith(".yml"):
+            written.update(x.strip() for x in re.findall(r"^\s*-\s*(\S+)\s*$", f[1], re.M))
+    # standard library files import each other too: what their TEXTS say (never what the parser under test reports)
+    for t in wd.get("ftext") or []:
+        written.update(t or [])
+    return p in written
 
 
 def tags_cfg(case, obs):
@@ -751,6 +939,11 @@ def tags_cfg(case, obs):
         o = obs.get(w)
         if o:
             t.append(f"cfg-{w}:" + o["outcome"] + (":" + o.get("cls", "") if o["outcome"] == "raised" else ""))
+    b = obs["base"]
+    if b["outcome"] == "ok" and "world" in b:
+        t.append("cfg-composition:" + ("checked" if expected_flows(b["world"], obs["version"]) is not None else "undetermined"))
+    if "seq" in obs:
+        t.append("cfg-second-load:" + str((obs["seq"].get("base_again") or {}).get("outcome")))
     if case.get("variant"):
         t.append("cfg-variant:" + case["variant"]["op"] + (":" + case["variant"]["edit"] if case["variant"]["op"] == "layout" else ""))
     b = obs["base"]
